@@ -30,7 +30,11 @@ static bool setup_i(MeshI &m) {
   take_snapshot(m, S);
   if (S.overflow || S.nV == 0) return false;
   for (int v = 0; v < S.nV; ++v) {
+#ifdef C19_POS16   // positions restricted to 16-bit signed values (cheaper multiplier equivalence for the length entry)
+    for (int k = 0; k < 3; ++k) PI[v][k] = (int)(int16_t)(uint16_t)v_nondet_u32();
+#else
     for (int k = 0; k < 3; ++k) PI[v][k] = v_nondet_int();
+#endif
     m.set_vertex(VH(v), V3i(PI[v][0], PI[v][1], PI[v][2]));
   }
   return true;
@@ -81,6 +85,7 @@ extern "C" void harness_geom_i_length() {
   // halfedges are enumerated here (not probed): with concrete handles both sides read the same position symbols,
   // which keeps the multiplier equivalence within reach of the SAT back ends (SMT back ends fail on mesh-level code)
   for (int he = 0; he < 2 * S.nE; ++he) {
+    if ((unsigned)(he >> 1) != v_param(1)) continue;   // sharded by edge
     int from = snap_he_from(S, he), to = snap_he_to(S, he);
     int sq = 0;
     for (int k = 0; k < 3; ++k) { int dk = wsub(PI[to][k], PI[from][k]); sq = wadd(sq, wmul(dk, dk)); }
